@@ -5,6 +5,7 @@ package checks
 import (
 	"context"
 	"fmt"
+	"math"
 	"strings"
 	"testing"
 
@@ -410,6 +411,33 @@ func TestC15(t *testing.T) {
 			}
 		}
 		ev.Exhaustive(fmt.Sprintf("all_trees_up_to_%d_nodes_by_bound_shapes_by_mode_by_tail", maxNodes), int64(i))
+	})
+	t.Run("huge_levels", func(t *testing.T) {
+		// the largest levels the syntax admits: they are levels, not "last" - on every word size (D59)
+		b := ev.enum(t)
+		const big = math.MaxInt32
+		i := 0
+		for _, lv := range [][2]int64{{big, big}, {0, big}, {1, big}, {big - 1, big}, {big, -1}, {-1, big}, {big - 1, big - 1}, {2, big - 1}, {65536, 65537}} {
+			for n := 1; n <= 4; n++ {
+				for _, d := range treesWith(n) {
+					for _, strict := range []bool{false, true} {
+						for _, tail := range []string{"", ".a"} {
+							i++
+							if !mine(i) {
+								continue
+							}
+							c := WildCase{Acc: "**", First: lv[0], Last: lv[1], Strict: strict, Doc: d, Tail: tail}
+							v, f := checkWildFacts(c)
+							record("huge_levels", c, f)
+							if !b.Check("c15.wild", c, v) {
+								return
+							}
+						}
+					}
+				}
+			}
+		}
+		ev.Exhaustive("levels_at_the_int32_limit_by_small_trees", int64(i))
 	})
 	t.Run("deep_chains", func(t *testing.T) {
 		// documents nested far deeper than any generated tree: chains of arrays / objects of depth 40..300
